@@ -554,6 +554,69 @@ func (s *LSpec) nullable(e *LExpr) bool {
 	return false
 }
 
+// ngRule builds a rule of the C08 shape: literal prefix, non-greedy repetition of a
+// one-code-point expression, non-empty literal terminator (possibly self-overlapping, possibly
+// made of characters the body also matches).
+func ngRule(r *Rng, lead int) *LExpr {
+	terms := [][]int{{'*', '/'}, {'-', '-', '>'}, {'a', 'a'}, {'a', 'b', 'a'}, {'z'}, {'"'}, {']', ']'}, {'x', 'y', 'x', 'y'}}
+	term := Pick(r, terms)
+	prefix := []int{lead}
+	if r.Bool() {
+		prefix = append(prefix, Pick(r, []int{'*', '-', '!', '<'}))
+	}
+	var body *LTerm
+	switch r.Intn(4) {
+	case 0:
+		body = &LTerm{Kind: LDot}
+	case 1:
+		body = &LTerm{Kind: LClass, Class: &LClassExpr{Items: []RRange{{'a', 'z'}, {'*', '/'}, {' ', ' '}, {'"', '"'}, {']', ']'}, {'>', '>'}}}}
+	case 2:
+		body = &LTerm{Kind: LClass, Class: &LClassExpr{Neg: true, Items: []RRange{{'\n', '\n'}}}}
+	default:
+		body = &LTerm{Kind: LGroup, Group: &LExpr{Alts: [][]*LTerm{
+			{{Kind: LClass, Class: &LClassExpr{Items: []RRange{{'a', 'y'}}}}},
+			{{Kind: LClass, Class: &LClassExpr{Items: []RRange{{'*', '>'}, {'z', 'z'}, {']', ']'}, {'"', '"'}}}}}}}}
+	}
+	body.Card = Pick(r, []string{"*?", "+?"})
+	return &LExpr{Alts: [][]*LTerm{{{Kind: LLit, Lit: prefix}, body, {Kind: LLit, Lit: term}}}}
+}
+
+// GenLSpecNG: a mode with several non-greedy rules (distinct leading characters) and greedy
+// neighbours that do not share a prefix with them; with `overlap` a greedy neighbour shares the
+// leading character (this reproduces known finding K2).
+func GenLSpecNG(r *Rng, overlap bool) *LSpec {
+	s := &LSpec{Modes: []*LMode{{Name: ""}}, BlockAt: []int{0}}
+	leads := []int{'/', '<', '[', '"', '#', '{'}
+	n := 1 + r.Intn(3)
+	for i := 0; i < n; i++ {
+		s.Modes[0].Rules = append(s.Modes[0].Rules, &LRule{Expr: ngRule(r, leads[i])})
+	}
+	// greedy neighbours
+	s.Modes[0].Rules = append(s.Modes[0].Rules, &LRule{Expr: &LExpr{Alts: [][]*LTerm{{{Kind: LClass, Class: &LClassExpr{Items: []RRange{{'a', 'z'}}}, Card: "+"}}}}})
+	s.Modes[0].Rules = append(s.Modes[0].Rules, &LRule{Frag: true, Acts: []LAct{{Kind: "discard"}}, Expr: &LExpr{Alts: [][]*LTerm{{{Kind: LClass, Class: &LClassExpr{Items: []RRange{{' ', ' '}, {'\n', '\n'}}}, Card: "+"}}}}})
+	if r.Bool() {
+		s.Modes[0].Rules = append(s.Modes[0].Rules, &LRule{Expr: &LExpr{Alts: [][]*LTerm{{{Kind: LClass, Class: &LClassExpr{Items: []RRange{{'0', '9'}}}, Card: "+"}}}}})
+	}
+	if overlap {
+		// a greedy rule that starts like the first non-greedy rule and continues with its body characters
+		s.Modes[0].Rules = append(s.Modes[0].Rules, &LRule{Expr: &LExpr{Alts: [][]*LTerm{{{Kind: LLit, Lit: []int{leads[0]}}, {Kind: LClass, Class: &LClassExpr{Items: []RRange{{'a', 'z'}, {'*', '/'}}}, Card: "+"}}}}})
+	}
+	// shuffle rule order (priority)
+	rs := s.Modes[0].Rules
+	for i := len(rs) - 1; i > 0; i-- {
+		j := r.Intn(i + 1)
+		rs[i], rs[j] = rs[j], rs[i]
+	}
+	for _, ru := range rs {
+		if !ru.Frag {
+			ru.Tok = len(s.TokenNames)
+			ru.Name = fmt.Sprintf("T%d", len(s.TokenNames))
+			s.TokenNames = append(s.TokenNames, ru.Name)
+		}
+	}
+	return s
+}
+
 // GenLSpec draws a random lexer specification whose rules never match the empty string.
 func GenLSpec(r *Rng, o LGenOpts) *LSpec {
 	s := &LSpec{}
